@@ -667,7 +667,8 @@ theorem header_attrs_provenance (ctx : Ctx) (bs : Bytes) (pos : Nat) (v : Val) (
           | path p =>
             simp only [List.contains_eq_mem, decide_eq_true_eq] at this
             exact ⟨hag "isEmptyStr" p this, hag "isMinusOne" p this, hag "isNan" p this⟩
-          | app fn a => simp at this)
+          | app fn a => simp at this
+          | app2 fn a b => simp at this)
       rw [parse_eq_skel _ _ hs ctx bs pos v pos' h, extractAttrs_natural _ _ _ (Prov.compat_rhoOf v), hcongr,
         Option.map_map]
       have : (sortByKey ∘ PVal.mapKvs (Sym.eval v)) = (PVal.mapKvs (Sym.eval v) ∘ sortByKey) := by
